@@ -61,11 +61,29 @@ func (t *vfRejectingText) Add(id uint32, text string) error {
 }
 
 func vfBadMetaValue(kind string) interface{} {
+	// anything outside the five supported types (int, int64, float64, string, bool)
 	switch kind {
 	case "meta_slice":
 		return []int{1, 2}
 	case "meta_nil":
 		return nil
+	case "meta_int32":
+		return int32(5)
+	case "meta_float32":
+		return float32(1.5)
+	case "meta_uint":
+		return uint(7)
+	case "meta_uint64":
+		return uint64(7)
+	case "meta_int8":
+		return int8(3)
+	case "meta_strslice":
+		return []string{"a"}
+	case "meta_map":
+		return map[string]interface{}{"x": 1}
+	case "meta_ptr":
+		x := 5
+		return &x
 	default:
 		return struct{ A int }{1}
 	}
@@ -140,7 +158,7 @@ func vfC06Gen(rt *rapid.T) vfC06Case {
 			return op
 		case w < 55:
 			d := genDoc(rt)
-			fail := rapid.SampledFrom([]string{"dim", "zero", "text", "meta_slice", "meta_nil", "meta_struct", "meta_slice"}).Draw(rt, "fail_kind")
+			fail := rapid.SampledFrom([]string{"dim", "zero", "text", "meta_slice", "meta_nil", "meta_struct", "meta_int32", "meta_float32", "meta_uint", "meta_uint64", "meta_int8", "meta_strslice", "meta_map", "meta_ptr"}).Draw(rt, "fail_kind")
 			if rapid.Bool().Draw(rt, "fail_explicit_id") {
 				d.ID = uint32(1<<30 + (1 << 21) + rapid.IntRange(0, 1000).Draw(rt, "fail_doc_id"))
 			}
